@@ -110,4 +110,32 @@ def noSubDir : Dir Nat := .mk dir.files []
 theorem missing_sublayout_evidence_fails : verifyC env idOrd 2 [] block [0] noSubDir "final".toList = none := by
   decide
 
+/-! an inspection whose rules refer to an inspection the layout lists AFTER it: `check` requires its
+    `pkg.tgz` to be the one `untar` (listed later) saw, and forbids any other -/
+
+def checkInsp : Insp :=
+  { name := "check".toList,
+    expMaterials := [.matchR "pkg.tgz".toList none .materials none "untar".toList, .disallow "pkg.tgz".toList,
+                     .allow "*".toList],
+    expProducts := [.allow "*".toList] }
+
+def layoutLater : Layout Nat := { layout with inspect := checkInsp :: layout.inspect }
+def layoutEarlier : Layout Nat := { layout with inspect := layout.inspect ++ [checkInsp] }
+def layoutAlone : Layout Nat := { layout with inspect := [checkInsp] }
+def blockLater : Block Nat := { sigs := [{ kid := kO, val := [0] }], signed := .layout layoutLater }
+def blockEarlier : Block Nat := { sigs := [{ kid := kO, val := [0] }], signed := .layout layoutEarlier }
+def blockAlone : Block Nat := { sigs := [{ kid := kO, val := [0] }], signed := .layout layoutAlone }
+
+theorem verifies_match_from_later_inspection :
+    (verify env idOrd 2 [] blockLater [0] dir "final".toList).1 = .ok summaryLink :=
+  verify_ok_of_verifyC (by decide)
+
+theorem verifies_match_from_earlier_inspection :
+    (verify env idOrd 2 [] blockEarlier [0] dir "final".toList).1 = .ok summaryLink :=
+  verify_ok_of_verifyC (by decide)
+
+/-- the other inspection's link decides: without it in the table, `check`'s rules fail -/
+theorem fails_without_the_other_inspection : verifyC env idOrd 2 [] blockAlone [0] dir "final".toList = none := by
+  decide
+
 end InToto.Verify.Scenario
